@@ -44,7 +44,7 @@ def main():
     simexec.install()
     world = importlib.import_module(WORLDS[a.prop])
     if hasattr(world, "prepare"):
-        world.prepare()
+        world.prepare(a.tier)
     digests = [int(x) for x in a.digests.split(",")] if a.digests else None
     rc = runner.check(world, a.tier, a.seed, jobs=a.jobs, runs=a.runs, replay_path=a.replay,
                       digests=digests, wall=a.wall, no_shrink=a.no_shrink)
